@@ -620,6 +620,8 @@ def execute(case):
             made_invalid = "held list grown in place beyond its maximum length"
     except (ValueError, TypeError):
         made_invalid = None
+    if made_invalid and cfg.get("set_hook"):
+        made_invalid = None       # (what is validated is what the set_hook makes of the object, which may well be valid)
     if made_invalid:
         res.label("route:reassign_identical_after_invalidation")
         for how in ("attr", "update"):
